@@ -154,6 +154,15 @@ def branch_cases():
                 pad = ".byte 0\n" * d
                 yield ("br-fwd", mn, d, "%s l\n%sl:" % (mn, pad))
                 yield ("br-fwd-scope", mn, d, "{\n%s +\n%s}" % (mn, pad))
+            # the same inside segments that run at another address than where they are stored (labels are run addresses)
+            if d in (-140, -129, -128, -127, -64, -3, -2, 0, 1, 64, 126, 127, 128, 129, 140):
+                for start, pc in ((0x1000, 0x1010), (0x1000, 0x4000), (0xC000, 0x0200), (0x0810, 0x00F0)):
+                    hdr = '.define segment {\n name = "r"\n start = $%x\n pc = $%x\n}\n' % (start, pc)
+                    if d <= -2:
+                        yield ("br-back-relocated", mn, d, hdr + "l:\n%s%s l" % ("nop\n" * (-d - 2), mn))
+                    if d >= 0:
+                        yield ("br-fwd-relocated", mn, d, hdr + "%s l\n%sl:" % (mn, ".byte 0\n" * d))
+                        yield ("br-star-relocated", mn, d, hdr + "%s * + 2 + %d" % (mn, d))
 
 
 def stmt_forms(reduced):
@@ -246,7 +255,9 @@ def shard(idx, n, seed, tier, params):
         op = isa.ISA[mn]["rel"]
         if kind in ("br-lit", "br-star"):
             exp = bytes([op, d & 0xFF]) if legal else None
-        elif kind == "br-back":
+        elif kind == "br-star-relocated":
+            exp = bytes([op, d & 0xFF]) if legal else None
+        elif kind in ("br-back", "br-back-relocated"):
             exp = b"\xea" * (-d - 2) + bytes([op, d & 0xFF]) if legal else None
         elif kind == "br-back-scope":
             exp = b"\xea" * (-d - 2) + bytes([op, d & 0xFF]) if legal else None
@@ -257,6 +268,17 @@ def shard(idx, n, seed, tier, params):
         acc.cover("branch_distances", d)
     if cases:
         acc.sample({"kind": cases[-1][0], "src": cases[-1][3][-60:], "result": res[-1]}, cap=2)
+
+    # operand shapes that no addressing mode has (doubly indexed, index on an immediate, ...): rejected for every mnemonic
+    odd = []
+    for mn in isa.MNEMONICS:
+        for shape in ("(%s,x),y", "(%s,x),x", "(%s,y),y", "(%s,y),x", "#%s,x", "#%s,y", "%s,x,y", "%s,y,x", "((%s),y)", "(%s,x,y)", "(%s),y,x", "#(%s),y", "#(%s,x)"):
+            for v in ("$10", "$1234"):
+                odd.append((mn, shape, "%s %s" % (mn, shape % v)))
+    odd = [c for i, c in enumerate(odd) if i % n == idx]
+    res = ask_batch(probe, [c[2] for c in odd])
+    for c, r in zip(odd, res):
+        judge(acc, "odd-shape", c[2], None, r, [mn_group(c[0]), c[1]], ("odd", c[0], c[1]))
 
     # a branch to literal 0 from far away, and other far literal targets
     far = []
